@@ -38,7 +38,7 @@ CFG = {
                  "REAL component table (hooks component_listings, get_component_definition), entry, optional block, context, global context). "
                  "Sources: (a) the engine's snapshot corpus rendering_inputs/{success,errors}/**/*.txt under the context of snapshot_tests/rendering.rs "
                  "(ported statement by statement; templates calling the test's custom filter `read_ctx` are skipped and counted, and re-run with those "
-                 "lines removed); (b) 92 hand-written programs covering every operator, filter (with kwargs), test, function, component feature, each "
+                 "lines removed); (b) 90 hand-written programs covering every operator, filter (with kwargs), test, function, component feature, each "
                  "under 6 contexts (ints of every width incl. i128::MAX/u128::MAX, floats incl. NaN, infinities, -0.0, subnormal, 1e16/1e-5 "
                  "boundaries of the scientific notation, strings with specials/unicode, rows, maps, bytes), .html and .txt; (c) a TYPED grammar generator "
                  "(expressions of static type int/float/str/bool/array/map: + - * / // % ** unary minus, all six comparisons between numbers, strings, "
@@ -73,14 +73,17 @@ CFG = {
 }
 
 MANIFEST = (
-    "Rocq proof: compiler port + VM port refine a documentation-level reference interpreter (compile_correct, all statement trees); three correspondences (VM on real chunks, compiler listings, reference vs engine)",
+    "Rocq proof: compiler port + VM port refine a documentation-level reference interpreter (compile_correct, all statement trees); four correspondences (VM on real chunks in the toy world and in the full world World1 incl. the engine's snapshot corpus, compiler listings, reference vs engine)",
     "Theorems state the documented scoping order, the loop.* counters for every container and every iteration, and where assignments live, "
     "for all states of the Gallina port of the VM; compile_correct: for every library of statement trees (if/elif/else, for/else over arrays, "
     "strings, maps, break/continue, set/set_global, set blocks, filter sections, includes; any nesting), every context/global context, the "
     "compiled code (port of compile_node with back-patched targets) run on the VM port yields exactly the reference interpreter's text or both "
     "fail (induction on statements with a code-at-pc invariant, on items for loops, on the library for includes; exact fuel accounting). "
     "Run-level: include_state_is_fresh, nothing_survives_render for every chunk. Partial: capture exactness is proved for compiled bodies, "
-    "not arbitrary instruction segments. The three ports are validated every run: real finalized chunks on the VM port, real pre-optimisation "
+    "not arbitrary instruction segments. compile_correct is instantiated at the toy world World0 and at the full world World1 (every delegated "
+    "function = the per-property model: Number, Order, CollFilters, Builtins, Component, Format); World1 is proved to agree with World0 on the World0 "
+    "subset, and the models it plugs together are proved equal where they port the same Rust function (Key::eq/cmp, Map::get, get_attr, numeric "
+    "==/partial_cmp between C13 and C15, escape_html, the decimal printers). The three ports are validated every run: real finalized chunks on the VM port, real pre-optimisation "
     "listings vs the compiler port, tera.render vs the reference interpreter.",
     "§6 C03",
 )
